@@ -67,30 +67,32 @@ WinSet(k) == CASE k = 1 -> << WStatic >> [] k = 2 -> << WStatic, WDelta >> [] k 
 
 \* ---- PDF words (all dyadic).  h mixes the indices into a small number.
 Mix(a, b, c, d) == (a * 7 + b * 13 + c * 5 + d * 3)
+\* salt as seen by the PDF words: siblings f.salt + 6k (same structure: vector lengths, options, GV flags) get different words
+WSalt(f) == f.salt + (f.salt \div 6)
 DurWords(f, pdf) ==    \* nstate means in quarters in [1/2, 13/4], then nstate variances in {1/4,1/2,3/4}
-  [i \in 1..f.nstate |-> << 2 + (Mix(pdf, i, f.salt, 0) % 12), 2 >>] \o
-  [i \in 1..f.nstate |-> << 1 + (Mix(pdf, i, f.salt, 1) % 3), 2 >>]
+  [i \in 1..f.nstate |-> << 2 + (Mix(pdf, i, WSalt(f), 0) % 12), 2 >>] \o
+  [i \in 1..f.nstate |-> << 1 + (Mix(pdf, i, WSalt(f), 1) % 3), 2 >>]
 McpVlen(f) == 3 + (f.salt % 2)
 McpMean(f, tp, pdf, w, i) ==
-  IF w > 1 THEN << (Mix(tp, pdf, i, f.salt) % 5) - 2, 5 >>                         \* dynamic features: +-1/16
-  ELSE IF f.stage = 0 THEN (IF i = 1 THEN << (Mix(tp, pdf, 1, f.salt) % 9) - 4, 4 >>       \* c0 in +-1/4
-                                      ELSE << (Mix(tp, pdf, i, f.salt) % 5) - 2, 4 >>)     \* c_m in +-1/8
-  ELSE IF i = 1 THEN (IF f.salt % 3 = 1 THEN << (Mix(tp, pdf, 1, f.salt) % 3) - 1, 2 >>    \* log gain in {-1/4,0,1/4}
-                                         ELSE << 4 + (Mix(tp, pdf, 1, f.salt) % 3), 2 >>)   \* gain in {1, 5/4, 3/2}
-  ELSE << 48 * (i - 1) + (Mix(tp, pdf, i, f.salt) % 7) - 3, 6 - (IF McpVlen(f) = 3 THEN 0 ELSE 0) >>   \* LSP: 0.75*(i-1) +- 3/64
+  IF w > 1 THEN << (Mix(tp, pdf, i, WSalt(f)) % 5) - 2, 5 >>                         \* dynamic features: +-1/16
+  ELSE IF f.stage = 0 THEN (IF i = 1 THEN << (Mix(tp, pdf, 1, WSalt(f)) % 9) - 4, 4 >>       \* c0 in +-1/4
+                                      ELSE << (Mix(tp, pdf, i, WSalt(f)) % 5) - 2, 4 >>)     \* c_m in +-1/8
+  ELSE IF i = 1 THEN (IF f.salt % 3 = 1 THEN << (Mix(tp, pdf, 1, WSalt(f)) % 3) - 1, 2 >>    \* log gain in {-1/4,0,1/4}
+                                         ELSE << 4 + (Mix(tp, pdf, 1, WSalt(f)) % 3), 2 >>)   \* gain in {1, 5/4, 3/2}
+  ELSE << 48 * (i - 1) + (Mix(tp, pdf, i, WSalt(f)) % 7) - 3, 6 - (IF McpVlen(f) = 3 THEN 0 ELSE 0) >>   \* LSP: 0.75*(i-1) +- 3/64
 LnGain(f) == f.salt % 3 = 1
 StreamWords(f, name, vlen, nwin, msd, tp, pdf) ==
   LET n == vlen * nwin
       mean(j) == LET w == ((j - 1) \div vlen) + 1  i == ((j - 1) % vlen) + 1 IN
                  CASE name = "MCP" -> McpMean(f, tp, pdf, w, i)
-                   [] name = "LF0" -> IF w = 1 THEN << 18 + (Mix(tp, pdf, 0, f.salt) % 4), 2 >>     \* 4.5 .. 5.25
-                                      ELSE << (Mix(tp, pdf, w, f.salt) % 3) - 1, 5 >>
+                   [] name = "LF0" -> IF w = 1 THEN << 18 + (Mix(tp, pdf, 0, WSalt(f)) % 4), 2 >>     \* 4.5 .. 5.25
+                                      ELSE << (Mix(tp, pdf, w, WSalt(f)) % 3) - 1, 5 >>
                    [] OTHER -> IF vlen = 1 THEN << 1, 0 >> ELSE (IF i = 2 THEN << 1, 1 >> ELSE << 1, 2 >>)  \* LPF taps
-      vari(j) == << 1 + (Mix(tp, pdf, j, f.salt + 1) % 3), 2 >>                                   \* 1/4, 1/2, 3/4
+      vari(j) == << 1 + (Mix(tp, j, WSalt(f) + 1, pdf) % 3), 2 >>                                   \* 1/4, 1/2, 3/4
   IN [j \in 1..n |-> mean(j)] \o [j \in 1..n |-> vari(j)] \o
-     (IF msd THEN << << 1 + 2 * (Mix(tp, pdf, 2, f.salt) % 4), 3 >> >> ELSE <<>>)                 \* 1/8, 3/8, 5/8, 7/8
-GvWords(f, vlen, pdf) == [i \in 1..vlen |-> << 1 + (Mix(pdf, i, f.salt, 2) % 3), 6 >>] \o       \* GV mean 1/64 .. 3/64
-                         [i \in 1..vlen |-> << 1, 2 >>]
+     (IF msd THEN << << 1 + 2 * (Mix(tp, pdf, 2, WSalt(f)) % 4), 3 >> >> ELSE <<>>)                 \* 1/8, 3/8, 5/8, 7/8
+GvWords(f, vlen, pdf) == [i \in 1..vlen |-> << 1 + (Mix(pdf, i, WSalt(f), 2) % 3), 6 >>] \o       \* GV mean 1/64 .. 3/64
+                         [i \in 1..vlen |-> << 1 + (Mix(pdf, i, WSalt(f), 1) % 2), 2 >>]
 
 DurModel(f) == LET k == f.shape  q == QPick(f.salt) IN
   [qs |-> QsOf(k, q), trees |-> << Shape(k, 2, q) >>, pdfs |-> << [p \in 1..NPdf(k) |-> DurWords(f, p)] >>]
